@@ -1,4 +1,327 @@
 import Abverif.Model.Handshake
+import Abverif.Proofs.Lemmas.C07Str
+import Abverif.Proofs.Lemmas.C07Stage
+import Abverif.Proofs.Lemmas.C07Origin
+/-!
+C07 — the opening handshake admits exactly the valid peers and never crashes.  Property theorems.
+
+All statements are about the models `Handshake.server` / `Handshake.client` / `Handshake.clientRequest`
+(Abverif/Model/Handshake.lean) and quantify over ALL byte strings, configurations, environments and chunkings.
+Where the code (and therefore the model) deviates from the Spec, the theorem is `_partial`, its hypothesis names the
+excluded inputs, and an `example` next to it shows the deviation on a concrete input (each is a known finding).
+-/
 namespace Abverif.Handshake
-theorem placeholder : True := trivial
+open Abverif Abverif.Http Abverif.Url
+
+/-! ### vocabulary -/
+
+/-- the header block of `data`: everything up to and including the first CRLF CRLF, parsed as `parseHttpHeader` does -/
+def ParsedHead (data line : Bytes) (hs : List Hdr) : Prop :=
+  ∃ eoh, find crlfcrlf data = some eoh ∧ parseHttpHeader (data.take (eoh + 4)) = some (line, hs)
+
+/-- the protocols the client announced, as the server reads them -/
+def offered (hs : List Hdr) : List Bytes :=
+  match hget hs b!"sec-websocket-protocol" with
+  | none => []
+  | some h => (splitOn 44 h.val).map strip
+
+/-- the user's `onConnect` accepts, with no subprotocol or one the client announced -/
+def Accepts (env : SrvEnv) (hs : List Hdr) : Prop :=
+  ∃ proto uh, env.onConnect = .accept proto uh ∧ ∀ p, proto = some p → p ∈ offered hs
+
+/-- whenever `int()` reads a supported version from the header, the header is written the RFC way -/
+def StrictVersion (cfg : SrvCfg) (hs : List Hdr) : Prop :=
+  ∀ n, pyVersion cfg hs = some n → rfcVersion (value hs b!"sec-websocket-version") = some n
+
+def SrvOut.isOpened : SrvOut → Bool
+  | .opened .. => true
+  | _ => false
+
+def SrvOut.isEscape : SrvOut → Bool
+  | .escapes _ => true
+  | _ => false
+
+def CliOut.isOpened : CliOut → Bool
+  | .opened .. => true
+  | _ => false
+
+def CliOut.isEscape : CliOut → Bool
+  | .escapes _ => true
+  | _ => false
+
+/-! ### int() on RFC version numerals -/
+
+theorem rfcVersion_pyInt {s : Bytes} {n : Nat} (h : rfcVersion s = some n) : pyInt s = some (n : Int) := by
+  unfold rfcVersion at h
+  split at h
+  · next a =>
+    split at h
+    · next ha =>
+      simp at h; subst h
+      rw [pyInt_digits (by simp) (by simp [ha]) (by simp)]
+      simp
+    · simp at h
+  · next a b =>
+    split at h
+    · next hab =>
+      simp at h; subst h
+      simp at hab
+      have ha : isDigit a = true := by simp [isDigit]; exact ⟨by have := hab.1.1; exact UInt8.le_trans (by decide) this, hab.1.2⟩
+      rw [pyInt_digits (by simp) (by simp [ha, hab.2]) (by simp)]
+      simp
+    · simp at h
+  · next a b c =>
+    split at h
+    · next habc =>
+      dsimp only at h
+      split at h
+      · simp at h; subst h
+        simp at habc
+        have ha : isDigit a = true := by
+          rcases habc.1.1 with rfl | rfl <;> decide
+        rw [pyInt_digits (by simp) (by simp [ha, habc.1.2, habc.2]) (by simp)]
+        simp
+        omega
+      · simp at h
+    · simp at h
+  · simp at h
+
+/-! ### what a stage can answer when it stops the chain -/
+
+def IsFail (o : SrvOut) : Prop := ∃ c e, o = .fail c e
+
+theorem bind_error {ε α β : Type} (x : Except ε α) (f : α → Except ε β) (e : ε) :
+    (x >>= f) = .error e ↔ x = .error e ∨ ∃ a, x = .ok a ∧ f a = .error e := by
+  cases x <;> simp [bind, Except.bind]
+
+macro "stage_err" h:ident : tactic =>
+  `(tactic| (repeat' (first | split at $h:ident | (dsimp only at $h:ident; split at $h:ident))) <;>
+      first | (cases $h:ident; exact ⟨_, _, rfl⟩) | (cases $h:ident))
+
+theorem stageLine_err {line : Bytes} {o : SrvOut} (h : stageLine line = .error o) : IsFail o := by
+  unfold stageLine bad at h; stage_err h
+theorem stageUri_err {env : SrvEnv} {uri : Bytes} {o : SrvOut} (h : stageUri env uri = .error o) : IsFail o := by
+  unfold stageUri bad at h; stage_err h
+theorem stageHost_err {cfg : SrvCfg} {hs : List Hdr} {o : SrvOut} (h : stageHost cfg hs = .error o) : IsFail o := by
+  unfold stageHost bad at h; stage_err h
+theorem stageConnection_err {hs : List Hdr} {o : SrvOut} (h : stageConnection hs = .error o) : IsFail o := by
+  unfold stageConnection bad at h; stage_err h
+theorem stageVersion_err {cfg : SrvCfg} {hs : List Hdr} {o : SrvOut} (h : stageVersion cfg hs = .error o) : IsFail o := by
+  unfold stageVersion bad at h; stage_err h
+theorem stageProtocols_err {hs : List Hdr} {o : SrvOut} (h : stageProtocols hs = .error o) : IsFail o := by
+  unfold stageProtocols bad at h; stage_err h
+theorem stageOrigin_err {cfg : SrvCfg} {env : SrvEnv} {hs : List Hdr} {v : Nat} {o : SrvOut}
+    (h : stageOrigin cfg env hs v = .error o) : IsFail o := by
+  unfold stageOrigin bad at h; stage_err h
+theorem stageKey_err {hs : List Hdr} {o : SrvOut} (h : stageKey hs = .error o) : IsFail o := by
+  unfold stageKey bad at h; stage_err h
+theorem stageExtensions_err {hs : List Hdr} {o : SrvOut} (h : stageExtensions hs = .error o) : IsFail o := by
+  unfold stageExtensions bad at h; stage_err h
+theorem stageMax_err {cfg : SrvCfg} {env : SrvEnv} {o : SrvOut} (h : stageMax cfg env = .error o) : IsFail o := by
+  unfold stageMax at h; stage_err h
+
+/-- the web-status branch is the only place where the chain can end otherwise than in an HTTP error:
+status page, redirect, or an exception out of `hyperlink` / `int` -/
+theorem stageUpgrade_err {cfg : SrvCfg} {env : SrvEnv} {hs : List Hdr} {o : SrvOut}
+    (h : stageUpgrade cfg env hs = .error o) :
+    IsFail o ∨ (cfg.webStatus = true ∧ hget hs b!"upgrade" = none ∧
+      ((∃ r, o = .statusPage r) ∨ (∃ u, o = .redirect303 u) ∨
+       (∃ c, o = .escapes c ∧ (env.redirect = .bad c ∨ ∃ u, env.redirect = .url u .bad ∧ c = .valueError)))) := by
+  unfold stageUpgrade bad at h
+  split at h
+  · next hnone =>
+    split at h
+    · next hws =>
+      right
+      refine ⟨hws, hnone, ?_⟩
+      split at h <;> cases h
+      · exact .inl ⟨_, rfl⟩
+      · next c hc => exact .inr (.inr ⟨c, rfl, .inl hc⟩)
+      · exact .inr (.inl ⟨_, rfl⟩)
+      · next u hu => exact .inr (.inr ⟨_, rfl, .inr ⟨u, hu, rfl⟩⟩)
+      · exact .inl ⟨_, rfl⟩
+    · cases h; exact .inl ⟨_, _, rfl⟩
+  · split at h
+    · cases h
+    · cases h; exact .inl ⟨_, _, rfl⟩
+
+/-- how the validation chain can stop -/
+theorem validate_error {cfg : SrvCfg} {env : SrvEnv} {line : Bytes} {hs : List Hdr} {o : SrvOut}
+    (h : validate cfg env line hs = .error o) :
+    IsFail o ∨ (cfg.webStatus = true ∧ hget hs b!"upgrade" = none ∧
+      ((∃ r, o = .statusPage r) ∨ (∃ u, o = .redirect303 u) ∨
+       (∃ c, o = .escapes c ∧ (env.redirect = .bad c ∨ ∃ u, env.redirect = .url u .bad ∧ c = .valueError)))) := by
+  unfold validate at h
+  simp only [bind_error] at h
+  rcases h with h | ⟨_, _, h⟩
+  · exact .inl (stageLine_err h)
+  rcases h with h | ⟨_, _, h⟩
+  · exact .inl (stageUri_err h)
+  rcases h with h | ⟨_, _, h⟩
+  · exact .inl (stageHost_err h)
+  rcases h with h | ⟨_, _, h⟩
+  · exact stageUpgrade_err h
+  rcases h with h | ⟨_, _, h⟩
+  · exact .inl (stageConnection_err h)
+  rcases h with h | ⟨_, _, h⟩
+  · exact .inl (stageVersion_err h)
+  rcases h with h | ⟨_, _, h⟩
+  · exact .inl (stageProtocols_err h)
+  rcases h with h | ⟨_, _, h⟩
+  · exact .inl (stageOrigin_err h)
+  rcases h with h | ⟨_, _, h⟩
+  · exact .inl (stageKey_err h)
+  rcases h with h | ⟨_, _, h⟩
+  · exact .inl (stageExtensions_err h)
+  rcases h with h | ⟨_, _, h⟩
+  · exact .inl (stageMax_err h)
+  · simp [pure, Except.pure] at h
+
+/-! ### server: opens exactly for valid requests -/
+
+theorem isFail_not_opened {o : SrvOut} (h : IsFail o) : o.isOpened = false := by
+  obtain ⟨c, e, rfl⟩ := h; rfl
+
+theorem validate_error_not_opened {cfg : SrvCfg} {env : SrvEnv} {line : Bytes} {hs : List Hdr} {o : SrvOut}
+    (h : validate cfg env line hs = .error o) : o.isOpened = false := by
+  rcases validate_error h with h | ⟨_, _, h | h | h⟩
+  · exact isFail_not_opened h
+  · obtain ⟨r, rfl⟩ := h; rfl
+  · obtain ⟨r, rfl⟩ := h; rfl
+  · obtain ⟨r, rfl, _⟩ := h; rfl
+
+theorem succeed_opened_iff (cfg : SrvCfg) (v : Validated) (proto : Option Bytes) (uh : List (Bytes × Bytes))
+    (rest : Bytes) :
+    (succeed cfg v proto uh rest).isOpened = true ↔
+      (∀ p, proto = some p → p ∈ v.protocols) ∧
+      (v.exts.filter (fun e => isPmce e.name)).all (pmceParamsOk true) = true := by
+  unfold succeed
+  dsimp only
+  cases hall : (List.filter (fun e => isPmce e.name) v.exts).all (pmceParamsOk true) <;> cases proto with
+  | none => simp [SrvOut.isOpened]
+  | some p => by_cases hm : p ∈ v.protocols <;> cases haio : cfg.aio <;> simp [hm, SrvOut.isOpened]
+
+/-- when the model opens: header block complete, chain passed, `onConnect` accepted with an announced subprotocol (or
+none), every permessage-compress offer well-formed -/
+theorem server_opened_iff (cfg : SrvCfg) (env : SrvEnv) (data : Bytes) :
+    (server cfg env data).isOpened = true ↔
+      ∃ line hs v proto uh, ParsedHead data line hs ∧ validate cfg env line hs = .ok v ∧
+        env.onConnect = .accept proto uh ∧ (∀ p, proto = some p → p ∈ v.protocols) ∧
+        (v.exts.filter (fun e => isPmce e.name)).all (pmceParamsOk true) = true := by
+  unfold server ParsedHead
+  cases hf : find crlfcrlf data with
+  | none =>
+    simp
+    split <;> simp [SrvOut.isOpened]
+  | some eoh =>
+    simp only [Option.some.injEq, exists_eq_left']
+    cases hp : parseHttpHeader (data.take (eoh + 4)) with
+    | none => simp [SrvOut.isOpened]
+    | some lh =>
+      obtain ⟨line, hs⟩ := lh
+      simp only [Option.some.injEq, Prod.mk.injEq]
+      cases hv : validate cfg env line hs with
+      | error o =>
+        simp only [validate_error_not_opened hv]
+        constructor
+        · intro h; cases h
+        · rintro ⟨l, h, v, p, u, ⟨rfl, rfl⟩, hv2, _⟩
+          rw [hv] at hv2; cases hv2
+      | ok v =>
+        simp only
+        cases hoc : env.onConnect with
+        | deny c =>
+          simp [SrvOut.isOpened]
+        | raises =>
+          simp [SrvOut.isOpened]
+        | accept proto uh =>
+          simp only [succeed_opened_iff]
+          constructor
+          · rintro ⟨h1, h2⟩
+            exact ⟨line, hs, v, proto, uh, ⟨rfl, rfl⟩, hv, rfl, h1, h2⟩
+          · rintro ⟨l, h, v', p', u', ⟨rfl, rfl⟩, hv', hacc, hproto, hall⟩
+            rw [hv] at hv'
+            cases hv'
+            cases hacc
+            exact ⟨hproto, hall⟩
+
+theorem pyVersion_mem {cfg : SrvCfg} {hs : List Hdr} {n : Nat} (h : pyVersion cfg hs = some n) : n ∈ cfg.versions := by
+  unfold pyVersion at h
+  split at h
+  · split at h
+    · next hv => simp at h; rw [← h]; exact hv.2
+    · simp at h
+  · simp at h
+
+theorem pyVersion_of_rfc {cfg : SrvCfg} {hs : List Hdr} {n : Nat}
+    (h : rfcVersion (value hs b!"sec-websocket-version") = some n) (hm : n ∈ cfg.versions) :
+    pyVersion cfg hs = some n := by
+  unfold pyVersion
+  rw [rfcVersion_pyInt h]
+  simp [hm]
+
+theorem originOk_iff {cfg : SrvCfg} {env : SrvEnv} {hs : List Hdr} {ver : Nat}
+    (hv : rfcVersion (value hs b!"sec-websocket-version") = some ver) :
+    originOk cfg env hs = true ↔
+      (count hs (originKey ver) = 0 ∨
+       (count hs (originKey ver) = 1 ∧ originAllowed cfg env (value hs (originKey ver)) = true)) := by
+  unfold originOk
+  rw [hv]
+  simp
+
+/-- **server_accepts_iff_valid** (partial: for header blocks whose `Sec-WebSocket-Version`, when `int()` reads a supported
+version from it, is an RFC 6455 version numeral; the excluded inputs are `+13`, `1_3`, `013`, … — see the `example`s).
+For all byte strings, configurations and environments: the server model completes the handshake exactly when the header
+block is complete, satisfies `ValidRequest`, and the user's `onConnect` accepts. -/
+theorem server_accepts_iff_valid_partial (cfg : SrvCfg) (env : SrvEnv) (data : Bytes)
+    (hstrict : ∀ line hs, ParsedHead data line hs → StrictVersion cfg hs) :
+    (server cfg env data).isOpened = true ↔
+      ∃ line hs, ParsedHead data line hs ∧ ValidRequest cfg env line hs ∧ Accepts env hs := by
+  rw [server_opened_iff]
+  constructor
+  · rintro ⟨line, hs, v, proto, uh, hp, hv, hoc, hproto, hall⟩
+    obtain ⟨eoh, hfind, hparse⟩ := hp
+    have wf := parse_wf hparse
+    have strict := hstrict line hs ⟨eoh, hfind, hparse⟩
+    obtain ⟨uri, h1, h2, h3, h4, h5, ver, h6, ps, h7, h8, key, h9, exts, h10, h11, rfl⟩ := (validate_ok _ _ _ _ _).1 hv
+    have hver := (stageVersion_ok wf ver).1 h6
+    have hrfc := strict ver hver.2
+    have hps := (stageProtocols_ok hs ps).1 h7
+    have hext := (stageExtensions_ok exts).1 h10
+    refine ⟨line, hs, ⟨eoh, hfind, hparse⟩, ?_, ?_⟩
+    · exact
+        { line := (stageLineUri_ok env line).1 ⟨uri, h1, h2⟩
+          host := (stageHost_ok wf).1 h3
+          upgrade := (stageUpgrade_ok wf).1 h4
+          connection := (stageConnection_ok wf).1 h5
+          version := ⟨hver.1, ver, pyVersion_mem hver.2, hrfc⟩
+          protocols := hps.1
+          origin := (originOk_iff hrfc).2 ((stageOrigin_ok wf ver).1 h8)
+          key := ((stageKey_ok wf key).1 h9).1
+          extensions := ⟨hext.1, by unfold offersOk; rw [← hext.2]; exact hall⟩
+          capacity := (stageMax_ok cfg env).1 h11 }
+    · refine ⟨proto, uh, hoc, ?_⟩
+      intro p hp
+      have := hproto p hp
+      simp only at this
+      rw [hps.2] at this
+      exact this
+  · rintro ⟨line, hs, ⟨eoh, hfind, hparse⟩, hvalid, proto, uh, hoc, hproto⟩
+    have wf := parse_wf hparse
+    obtain ⟨uri, h1, h2⟩ := (stageLineUri_ok env line).2 hvalid.line
+    obtain ⟨hvc, ver, hvm, hrfc⟩ := hvalid.version
+    have hpy := pyVersion_of_rfc hrfc hvm
+    refine ⟨line, hs, ⟨ver, offered hs, strip (value hs b!"sec-websocket-key"),
+      parseExtensions (value hs b!"sec-websocket-extensions")⟩, proto, uh, ⟨eoh, hfind, hparse⟩, ?_, hoc, hproto, ?_⟩
+    · apply (validate_ok _ _ _ _ _).2
+      refine ⟨uri, h1, h2, (stageHost_ok wf).2 hvalid.host, (stageUpgrade_ok wf).2 hvalid.upgrade,
+        (stageConnection_ok wf).2 hvalid.connection, ver, (stageVersion_ok wf ver).2 ⟨hvc, hpy⟩, offered hs,
+        (stageProtocols_ok hs _).2 ⟨hvalid.protocols, rfl⟩,
+        (stageOrigin_ok wf ver).2 ((originOk_iff hrfc).1 hvalid.origin), _,
+        (stageKey_ok wf _).2 ⟨hvalid.key, rfl⟩, _, (stageExtensions_ok _).2 ⟨hvalid.extensions.1, rfl⟩,
+        (stageMax_ok cfg env).2 hvalid.capacity, rfl⟩
+    · have := hvalid.extensions.2
+      unfold offersOk at this
+      exact this
+
 end Abverif.Handshake
